@@ -708,44 +708,90 @@ def judge(chk, c, out, m_out):
             l_seen = [x[1] for x in calls if x[0] == "load"]
             last_apply = (e_seen[0] if e_seen else None, l_seen[0] if l_seen else None)
     # --- convergence on the stable tail
-    tail = c.get("tail")
-    if tail is not None and not viol and out.get("final_loadable_doc") is not None:
-        d = out["final_loadable_doc"]
-        t1, t2, t3 = tail            # indices of the three tail checks in the script
-        after2, after3 = snaps[t2 + 1], snaps[t3 + 1]
-        calls3 = infos[t3]["calls"]
-        et3 = [x for x in calls3 if x[0] == "etag" and x[2] == "ok"]
-        reports_tag = bool(et3) and isinstance(et3[0][3], str)
-        failed = None
-        if after2[1] != d:
-            failed = ("after two unforced checks on a stable, loadable source the engine does not enforce the "
-                      "source's document", {"engine": after2[1], "source": d})
-        elif reports_tag and (after3[0] is not False or any(x[0] == "load" for x in calls3)):
-            failed = ("source reports a tag but a later check still loads / returns True", {"step": t3})
-        elif not reports_tag and after3[1] != d:
-            failed = ("engine left the source's document", {"engine": after3[1], "source": d})
-        if failed:
-            pre1 = snaps[t1]          # state before the first tail check
-            stored = after3[5]
-            cur_content = infos[t3]["after_content"]
-            # proviso of the statement: initial loading disabled and nothing applied yet and the source's tag is
-            # (again) the one read at construction: the reloader cannot tell the source from its initial state
-            if (not c["initial_load"]) and after3[2] == 0 and stored is not None and stored == out.get("primed") \
-                    and et3 and et3[0][3] == stored:
-                chk.count("tail:proviso-not-met")
-            elif c["kind"] == ["http", True] and stored is not None and stored == out.get("src_etag_attr"):
-                chk.known("F9")
-                chk.count("tail:F9")
-            elif (content_kind_tag(c, stored) and last_apply is not None and last_apply[0] != last_apply[1]
-                  and last_apply[0] is not None and last_apply[0] == cur_content
-                  and et3 and et3[0][3] == stored):
-                chk.known("F20")
-                chk.count("tail:F20")
+    if not viol:
+        verdict, detail = tail_verdict(c, out, last_apply)
+        if verdict is not None:
+            chk.count("tail:" + verdict)
+        if verdict in ("F9", "F20"):
+            # the open finding's narrow class; suppressed only while its own witness still fails
+            if witness_fails(verdict):
+                chk.known(verdict)
             else:
-                viol.append(failed)
-        else:
-            chk.count("tail:converged")
+                viol.append((detail[0] + " [class of %s, whose witness no longer fails]" % verdict, detail[1]))
+        elif verdict == "failed":
+            viol.append(detail)
     return viol
+
+
+def last_apply_of(c, out):
+    """(content seen by etag(), content seen by load()) of the last check that returned True."""
+    last = None
+    for ix, info in enumerate(out["checks"]):
+        if info is None or out["snaps"][ix + 1][0] is not True or not info["calls"]:
+            continue
+        e_seen = [x[1] for x in info["calls"] if x[0] == "etag"]
+        l_seen = [x[1] for x in info["calls"] if x[0] == "load"]
+        last = (e_seen[0] if e_seen else None, l_seen[0] if l_seen else None)
+    return last
+
+
+def tail_verdict(c, out, last_apply):
+    """-> (None | "converged" | "not-loadable" | "proviso-not-met" | "F9" | "F20" | "failed", detail)"""
+    tail = c.get("tail")
+    if tail is None:
+        return None, None
+    if out.get("final_loadable_doc") is None:
+        return "not-loadable", None
+    snaps, infos = out["snaps"], out["checks"]
+    d = out["final_loadable_doc"]
+    t1, t2, t3 = tail            # indices of the three tail checks in the script
+    after2, after3 = snaps[t2 + 1], snaps[t3 + 1]
+    calls3 = infos[t3]["calls"]
+    et3 = [x for x in calls3 if x[0] == "etag" and x[2] == "ok"]
+    reports_tag = bool(et3) and isinstance(et3[0][3], str)
+    failed = None
+    if after2[1] != d:
+        failed = ("after two unforced checks on a stable, loadable source the engine does not enforce the "
+                  "source's document", {"engine": after2[1], "source": d})
+    elif reports_tag and (after3[0] is not False or any(x[0] == "load" for x in calls3)):
+        failed = ("source reports a tag but a later check still loads / returns True", {"step": t3})
+    elif not reports_tag and after3[1] != d:
+        failed = ("engine left the source's document", {"engine": after3[1], "source": d})
+    if not failed:
+        return "converged", None
+    stored = after3[5]
+    cur_content = infos[t3]["after_content"]
+    # proviso of the statement: initial loading disabled, nothing applied yet, and the source's tag is (again) the
+    # one read at construction: the reloader cannot tell the source from its initial state
+    if (not c["initial_load"]) and after3[2] == 0 and stored is not None and stored == out.get("primed") \
+            and et3 and et3[0][3] == stored:
+        return "proviso-not-met", None
+    # F9: HTTP source behind a server that sends ETags, stored tag = the tag the source object remembers
+    if c["kind"] == ["http", True] and stored is not None and stored == out.get("src_etag_attr"):
+        return "F9", failed
+    # F20: content tag stored by a check whose etag() and load() saw different contents, and the source is back
+    # at the content that etag() saw
+    if (content_kind_tag(c, stored) and last_apply is not None and last_apply[0] != last_apply[1]
+            and last_apply[0] is not None and last_apply[0] == cur_content and et3 and et3[0][3] == stored):
+        return "F20", failed
+    return "failed", failed
+
+
+_WITNESS = {}
+
+
+def witness_fails(fid):
+    """does the corpus witness of open finding `fid` still fail (in its class) on this implementation?"""
+    if fid not in _WITNESS:
+        f = lib.VERIF / "corpus" / "C10" / (fid + ".json")
+        ok = False
+        if f.exists():
+            c = lib.unjson(json.loads(f.read_text())["case"])
+            out = impl_run(c)
+            if not out.get("error"):
+                ok = tail_verdict(c, out, last_apply_of(c, out))[0] == fid
+        _WITNESS[fid] = ok
+    return _WITNESS[fid]
 
 
 # --------------------------------------------------------------------------
